@@ -53,8 +53,10 @@ def prepare(scratch, units):
                         depth += mbody[j] in "([{"
                         depth -= mbody[j] in ")]}"
                         j += 1
-                    expr = body[mm.end():j].strip()
+                    expr = re.sub(r"\s+", " ", body[mm.end():j].strip()).replace(" .", ".")
                     for a, b in ex.get("subst", {}).items():
+                        if a not in expr:
+                            raise Undecided("lost anchor: %r not in the initialiser of `let %s` (%s)" % (a, ex["let"], expr[:200]))
                         expr = expr.replace(a, b)
                     parts.append("// statement slice of %s :: %s : `let %s = ...;`  (substitutions %s)\npub %s {\n    %s\n}\n"
                                  % (ex["file"], " :: ".join(ex["item"]), ex["let"], ex.get("subst", {}), ex["as_fn"], expr))
